@@ -192,7 +192,9 @@ pub fn run_case(c: &Case) -> Observed {
 
     let mut vm = mk_vm();
     let state = (pre.clone(), post.clone());
-    let r = catch_unwind(AssertUnwindSafe(|| vm.exec_ops(&c.ops, access.clone(), &state, &cost_fn, limit)));
+    // run on a worker thread of the (global) rayon pool, as the checker does: parallel sections started from outside the
+    // pool are split differently (the injected job counts as stolen), which would hide what the children of one split share
+    let r = catch_unwind(AssertUnwindSafe(|| rayon::join(|| vm.exec_ops(&c.ops, access.clone(), &state, &cost_fn, limit), || ()).0));
     let (steps, cost_sum) = *priced.lock().unwrap();
     let reads = log.lock().unwrap().clone();
 
